@@ -162,13 +162,13 @@ def gen_exhaustive(tier, r):
     streams = []
     for m in cat:
         streams.append([m])
-    core = cat if tier != "quick" else cat[:5] + cat[7:10]
+    core = cat if tier != "quick" else cat[:4] + cat[7:9]
     for a, b in itertools.product(core, core):
         if len(a[0]) + len(b[0]) <= 160:
             streams.append([a, b])
     triples = [t for t in itertools.product(cat, repeat=3) if sum(len(m[0]) for m in t) <= 160]
     r.shuffle(triples)
-    streams += [list(t) for t in triples[: (6 if tier == "quick" else 260)]]
+    streams += [list(t) for t in triples[: (3 if tier == "quick" else 260)]]
     return streams
 
 
@@ -254,8 +254,8 @@ def mutate(r, s):
     elif m == 10:
         j = s.find(b"\r\n")
         if j >= 0:
-            s[j:j] = r.choice([b"\r\nno colon here", b"\r\nno colon here", b"\r\nContent-Length: " + b"0" * 4300 + b"3",
-                               b"\r\nContent-Length: " + b"0" * 4297 + b"003"])
+            s[j:j] = b"\r\nno colon here" if r.random() < 0.95 else r.choice(
+                [b"\r\nContent-Length: " + b"0" * 4300 + b"3", b"\r\nContent-Length: " + b"0" * 4297 + b"003"])
     else:
         j = s.find(b"\r\n")
         if j >= 0:
@@ -274,8 +274,8 @@ def prim_cases(tier):
                   b"123456789012345678901234567890", b"-x-ab cd", b"conTENT-length", b"x1a'bc", b"a_b"):
         yield extra
     # CPython's 4300-digit limit of int() for base 10 (none for base 16)
-    for big in (b"9" * 4300, b"9" * 4301, b"0" * 4301, b"0" * 4300 + b"_7", b" -" + b"1" * 4300 + b" ", b"+" + b"1" * 4301,
-                b"_".join([b"12"] * 2150), b"_".join([b"12"] * 2151), b"f" * 4400):
+    for big in (b"9" * 4300, b"9" * 4301, b"0" * 4301, b"0" * 4300 + b"_7", b" -" + b"1" * 4301 + b" ", b"+" + b"1" * 4301,
+                b"_".join([b"12"] * 2150), b"_".join([b"12"] * 2151), b"f" * 3500):
         yield big
 
 
@@ -409,6 +409,8 @@ Definition show_scuts1 opn ctr (s : bytes) : list Z :=
 
 def coq_bytes(b):
     b = unhx(b) if isinstance(b, str) else bytes(b)
+    if len(b) > 64 and len(set(b)) == 1:               # long list literals are slow to elaborate
+        return f"(repeat {b[0]}%N {len(b)})"
     return "[" + ";".join(str(x) for x in b) + "]%N" if b else "[]"
 
 
@@ -538,7 +540,7 @@ def xc_sample(streams):
         # reversed: the hand-written corner cases (0x_1f, 1_000_000, 30-digit numbers, ...) are at the end of the stream
         sample += xc_pick(streams.get(mode, [])[::-1], 2, lambda q, a: a == "none" if mode.startswith("int") else a == q.split(" ")[1],
                           lambda q, a: 6 <= len(q.split(" ")[1]) <= 400)
-    big = [(q, a) for q, a in streams.get("int10b", []) if len(q) > 8000][:1]               # the 4300-digit limit of int()
+    big = [(q, a) for q, a in streams.get("int10b", []) if len(q) > 8000 and len(set(q.split(" ")[1])) <= 2 and a == "none"][:2]   # 4300-digit limit
     sample = sample[:30] + big
     sample += xc_pick(streams.get("sfeed", []), 3, lambda q, a: a.split(" ")[0].split(":")[0] + a.split(" ")[1], lambda q, a: len(q) <= 3000)
     sample += sorted(streams.get("scuts1", []), key=lambda p: len(p[0]))[:1]
@@ -641,13 +643,13 @@ async def _run(ctx):
             cov.samples.append(dict(stream="A", bytes=s.decode("latin1"), segmentations=n, delivered=len(ms)))
     check_wires(drv, [m for ms in ex_streams for m in ms], add, xc["wire"])
     cov.extra["exhaustive"] = True
-    cov.extra["exhaustive_part"] = (f"{len(ex_streams)} well-formed streams <= 160 bytes (every catalogue message alone, every ordered pair" + (" of 8 of them" if tier == "quick" else "") + f", "
-                                    f"{6 if tier == 'quick' else 260} sampled triples): every single and every double cut position, "
+    cov.extra["exhaustive_part"] = (f"{len(ex_streams)} well-formed streams <= 160 bytes (every catalogue message alone, every ordered pair" + (" of 6 of them" if tier == "quick" else "") + f", "
+                                    f"{3 if tier == 'quick' else 260} sampled triples): every single and every double cut position, "
                                     f"{n_ex_cases} segmentations")
 
     # ---- B: random well-formed sequences, boundary-size bodies, random multi-cuts
     r = rng(seed, "c07rand")
-    n_rand = 2500 if tier == "quick" else 40000
+    n_rand = 1800 if tier == "quick" else 40000
     cases = []
     for i in range(n_rand):
         ms = [rand_msg(r, maxbody=r.choice([40, 300, 2048])) for _ in range(r.choice([1, 2, 3, 4, 6]))]
@@ -682,7 +684,7 @@ async def _run(ctx):
 
     # ---- C: mutated streams: all single cuts when short, random cuts otherwise
     r = rng(seed, "c07mut")
-    n_mut = 1500 if tier == "quick" else 25000
+    n_mut = 1200 if tier == "quick" else 25000
     mcases = []
     for i in range(n_mut):
         ms = [rand_msg(r, maxbody=40) for _ in range(r.choice([1, 2, 3]))]
@@ -762,9 +764,11 @@ async def _run(ctx):
     # ---- D: the model's int()/title()/strip() against CPython
     prims = list(prim_cases(tier))
     for mode in ("int10b", "int10s", "int16"):
-        ans = drv.batch([f"{mode} {hx(b)}" for b in prims])
-        xc[mode] = [(f"{mode} {hx(b)}", a) for b, a in zip(prims, ans)]
-        for b, a in zip(prims, ans):
+        # base 16 has no digit limit, but CPython cannot print a result of more than 4300 decimal digits
+        pm = prims if mode != "int16" else [b for b in prims if len(b) <= 3500]
+        ans = drv.batch([f"{mode} {hx(b)}" for b in pm])
+        xc[mode] = [(f"{mode} {hx(b)}", a) for b, a in zip(pm, ans)]
+        for b, a in zip(pm, ans):
             if a != py_int(b, mode):
                 add(f"prim:{mode}", f"model {mode}({b!r}) = {a}, CPython = {py_int(b, mode)}", False, input=hx(b))
     for mode, f in (("title", lambda x: x.decode().title().encode()), ("strips", lambda x: x.decode().strip().encode()),
